@@ -133,7 +133,12 @@ fn baseline(b: u64) -> Plan {
             // SRV, garbage, empty, too short), or both alternating
             let payload = ["valid", "wrong_srv", "mixed", "garbage", "empty", "short", "runts"][((b / 7) % 7) as usize];
             plan.params.insert(format!("flood_{}", payload), 1);
-            if payload != "valid" {
+            if payload == "runts" {
+                // half of these are answered: slower than for valid floods, but a full pass
+                // (16 batches) must still fit the exit deadline twice over (a worker may
+                // legitimately finish the pass it is in and make another before it looks at the flag)
+                plan.world.cost_scale = 200_000;
+            } else if payload != "valid" {
                 // turning a datagram away is several times cheaper than answering one: an even
                 // slower node, so that the queue does not empty between two unanswerable arrivals
                 plan.world.cost_scale = 600_000;
@@ -231,7 +236,16 @@ fn check(plan: &Plan, out: &RunOut) -> CheckOut {
     let w = &out.world;
     let (sig_seq, t_sig, handled) = match b.signal_at {
         Some(x) => x,
-        None => return co, // the signal instant lay beyond the end of this execution
+        None => {
+            // the signal instant lay beyond the end of this execution — or the server was gone
+            // before it: a process that has ended by itself cannot be stopped cleanly any more
+            if let (Some(code), true) = (b.exit, b.exit != Some(0)) {
+                co.nontrivial = true;
+                co.violate("C19", "exit_status_nonzero", format!("C19|server_gone_before_signal|load={}|code={}", load, code), format!("the server process ended by itself with status {} ({}) before the signal was due", code, b.exit_how));
+                check_no_panic(&mut co, "C19", out);
+            }
+            return co;
+        }
     };
     let _ = sig_seq;
     if !handled {
